@@ -502,7 +502,11 @@ func TestC17_DefinitionAndMatch(t *testing.T) {
 	rec := recorder("C17")
 	rec.AddRule("(a) generated definitions (every operator, topic offsets 0-3, static and dynamic data references, offsets up to 2^32-1, 0-4 predicates, integers 0/1/2^256-1/2^256/random, byte arguments of length 0/1/31/32/33/64/70; invalid variants labelled) crossed with logs built relative to the definition (0-4 topics, head/tail ABI layout aimed at satisfying or just missing each predicate, then hostile edits: truncation around word boundaries, offset/length words set to n-33..n+1, 2^16, 2^31, 2^32, 2^62, 2^63, 2^64-1). Oracles: Validate ok => Unmarshal(Marshal(d)) == d; Validate ok => ToFilterQuery succeeds; Match never panics, allocates <= 64 KiB + 4*(|data|+|args|), equals the reference semantics of docs/event.md whenever every reference lies inside the log; Match => log passes an independent eth_getLogs filter evaluation of ToFilterQuery. non-trivial = dynamic reference pointing outside the data, topic BytesEq whose argument is not 32 bytes, or a log matching all (>=1) predicates")
 	rec.Assume("missing topics and dynamic references that leave the log data are 'not well formed': any yes/no answer is accepted there, only panics/allocation are judged")
-	runRapid(t, N(5000, 300000), func(rt *rapid.T) {
+	runRapid(t, N(5000, 300000), c17MatchProp(rec))
+}
+
+func c17MatchProp(rec *Recorder) func(rt *rapid.T) {
+	return func(rt *rapid.T) {
 		dg := genDefinition(rt)
 		d := &dg.D
 		verr := d.Validate()
@@ -603,7 +607,7 @@ func TestC17_DefinitionAndMatch(t *testing.T) {
 		}
 		nt := dynOutside || oddTopicArg || (m && len(d.LogPredicates) > 0)
 		rec.Case(defDesc(d)+" x "+logDesc(log), nt, labels...)
-	})
+	}
 }
 
 func topicsHex(l *types.Log) []string {
@@ -696,4 +700,31 @@ func TestC17_Decoder(t *testing.T) {
 		}
 		rec.Case(fmt.Sprintf("bytes:%x", data), detail == "accepted", "decoder-"+detail)
 	})
+}
+
+// ---------------------------------------------------------------------------
+// native fuzz targets (thorough tier)
+
+func FuzzC17_Unmarshal(f *testing.F) {
+	seedDefs := []svc.EventTriggerDefinition{
+		{},
+		{Contract: common.HexToAddress("0x01"), LogPredicates: []svc.LogPredicate{{LogValueRef: svc.LogValueRef{Offset: 1}, ValuePredicate: svc.ValuePredicate{Op: svc.BytesEq, ByteArgs: [][]byte{make([]byte, 32)}}}}},
+		{Contract: common.HexToAddress("0x02"), LogPredicates: []svc.LogPredicate{{LogValueRef: svc.LogValueRef{Dynamic: true, Offset: 5}, ValuePredicate: svc.ValuePredicate{Op: svc.UintGte, IntArgs: []*big.Int{new(big.Int).Lsh(big.NewInt(1), 255)}}}}},
+	}
+	for i := range seedDefs {
+		f.Add(seedDefs[i].MarshalBytes())
+	}
+	f.Add([]byte{2, 0xc0})
+	f.Add([]byte{2, 0xf8, 0xff})
+	f.Add([]byte{2, 0xd6, 0x94, 0, 0, 0, 0, 0, 0, 0, 0, 0, 0, 0, 0, 0, 0, 0, 0, 0, 0, 0, 0, 0xc0})
+	f.Fuzz(func(t *testing.T, data []byte) {
+		ok, sig, detail := decoderProperty(data)
+		if !ok {
+			t.Fatalf("VERIF-FAIL signature=%s :: %s", sig, detail)
+		}
+	})
+}
+
+func FuzzC17_Match(f *testing.F) {
+	f.Fuzz(rapid.MakeFuzz(c17MatchProp(recorder("C17"))))
 }
